@@ -384,6 +384,149 @@ def _t_mul_commute(fn):
     return done
 
 
+def _blocks(fn):
+    for p in ast.walk(fn):
+        for fld in ("body", "orelse", "finalbody"):
+            blk = getattr(p, fld, None)
+            if isinstance(blk, list) and blk and isinstance(blk[0], ast.stmt):
+                yield p, fld, blk
+
+
+def _t_extract_condition(fn):
+    """if <test>: ...  ->  _cond_k = <test>; if _cond_k: ...   (not for elif arms: their test must stay lazy)"""
+    done = 0
+    for p, fld, blk in list(_blocks(fn)):
+        k = 0
+        while k < len(blk):
+            st = blk[k]
+            is_elif = isinstance(p, ast.If) and fld == "orelse" and len(blk) == 1
+            if isinstance(st, ast.If) and not is_elif and not isinstance(st.test, (ast.Name, ast.Constant)) \
+                    and not any(isinstance(x, (ast.NamedExpr, ast.Yield, ast.Await)) for x in ast.walk(st.test)):
+                nm = f"_cond_{done}"
+                blk.insert(k, ast.Assign(targets=[ast.Name(id=nm, ctx=ast.Store())], value=st.test, lineno=st.lineno))
+                st.test = ast.Name(id=nm, ctx=ast.Load())
+                done += 1
+                k += 1
+            k += 1
+    return done > 0
+
+
+def _t_else_after_jump(fn):
+    """if c: ...; return   rest   ->  if c: ...; return  else: rest"""
+    done = False
+    for p, fld, blk in list(_blocks(fn)):
+        for k, st in enumerate(blk):
+            if isinstance(st, ast.If) and not st.orelse and st.body and isinstance(st.body[-1], (ast.Return, ast.Raise, ast.Continue, ast.Break)) \
+                    and k + 1 < len(blk) and not any(isinstance(x, (ast.FunctionDef, ast.ClassDef)) for x in blk[k + 1:]):
+                st.orelse = blk[k + 1:]
+                del blk[k + 1:]
+                done = True
+                break
+    return done
+
+
+def _t_drop_else_after_jump(fn):
+    """if c: ...; return  else: rest   ->  if c: ...; return   rest"""
+    done = False
+    for p, fld, blk in list(_blocks(fn)):
+        for k, st in enumerate(blk):
+            if isinstance(st, ast.If) and st.orelse and st.body and isinstance(st.body[-1], (ast.Return, ast.Raise, ast.Continue, ast.Break)) \
+                    and not (len(st.orelse) == 1 and isinstance(st.orelse[0], ast.If)):
+                blk[k + 1:k + 1] = st.orelse
+                st.orelse = []
+                done = True
+                break
+    return done
+
+
+def _t_explicit_return(fn):
+    if isinstance(fn.body[-1], (ast.Return, ast.Raise)) or any(isinstance(x, (ast.Yield, ast.YieldFrom)) for x in ast.walk(fn)):
+        return False
+    fn.body.append(ast.Return(value=None))
+    return True
+
+
+def _t_assert_message(fn):
+    done = False
+    for n in ast.walk(fn):
+        if isinstance(n, ast.Assert):
+            n.msg = None if n.msg is not None else ast.Constant(value="must hold")
+            done = True
+    return done
+
+
+def _t_split_tuple_assign(fn):
+    """a, b = e1, e2  ->  a = e1; b = e2   when e2 does not read a (plain names only)"""
+    done = False
+    for p, fld, blk in list(_blocks(fn)):
+        k = 0
+        while k < len(blk):
+            st = blk[k]
+            if isinstance(st, ast.Assign) and len(st.targets) == 1 and isinstance(st.targets[0], ast.Tuple) and isinstance(st.value, ast.Tuple) \
+                    and len(st.targets[0].elts) == len(st.value.elts) and all(isinstance(t, ast.Name) for t in st.targets[0].elts):
+                names = [t.id for t in st.targets[0].elts]
+                indep = all(not any(isinstance(x, ast.Name) and x.id in names[:i] for x in ast.walk(v)) for i, v in enumerate(st.value.elts))
+                if indep and len(set(names)) == len(names):
+                    blk[k:k + 1] = [ast.Assign(targets=[t], value=v, lineno=st.lineno) for t, v in zip(st.targets[0].elts, st.value.elts)]
+                    k += len(names) - 1
+                    done = True
+            k += 1
+    return done
+
+
+def _t_join_assign(fn):
+    """a = e1; b = e2  ->  a, b = e1, e2   for adjacent plain-name assignments where e2 does not read a"""
+    done = False
+    for p, fld, blk in list(_blocks(fn)):
+        k = 0
+        while k + 1 < len(blk):
+            s1, s2 = blk[k], blk[k + 1]
+            if all(isinstance(s_, ast.Assign) and len(s_.targets) == 1 and isinstance(s_.targets[0], ast.Name) for s_ in (s1, s2)) \
+                    and s1.targets[0].id != s2.targets[0].id \
+                    and not any(isinstance(x, ast.Name) and x.id == s1.targets[0].id for x in ast.walk(s2.value)) \
+                    and not any(isinstance(x, (ast.Call, ast.Lambda)) for x in ast.walk(s2.value)):
+                blk[k:k + 2] = [ast.Assign(targets=[ast.Tuple(elts=[s1.targets[0], s2.targets[0]], ctx=ast.Store())],
+                                           value=ast.Tuple(elts=[s1.value, s2.value], ctx=ast.Load()), lineno=s1.lineno)]
+                done = True
+            k += 1
+    return done
+
+
+def _t_inline_single_use(fn):
+    """v = <call-free expression>; <next statement reading v once>  ->  the next statement with the expression in place
+    (v a plain local stored once in the function and read nowhere else)"""
+    stores: dict = {}
+    loads: dict = {}
+    for n in ast.walk(fn):
+        if isinstance(n, ast.Name):
+            (stores if isinstance(n.ctx, ast.Store) else loads).setdefault(n.id, []).append(n)
+    done = False
+    for p, fld, blk in list(_blocks(fn)):
+        k = 0
+        while k + 1 < len(blk):
+            st, nxt = blk[k], blk[k + 1]
+            if isinstance(st, ast.Assign) and len(st.targets) == 1 and isinstance(st.targets[0], ast.Name):
+                v = st.targets[0].id
+                if len(stores.get(v, [])) == 1 and len(loads.get(v, [])) == 1 \
+                        and not any(isinstance(x, (ast.Call, ast.Lambda, ast.ListComp, ast.GeneratorExp, ast.List, ast.Dict, ast.Set, ast.Await, ast.Yield))
+                                    for x in ast.walk(st.value)) \
+                        and isinstance(nxt, (ast.Assign, ast.Return, ast.Expr, ast.AugAssign, ast.Assert)):
+                    use = loads[v][0]
+                    inside = [x for x in ast.walk(nxt) if x is use]
+                    in_closure = any(isinstance(x, (ast.Lambda, ast.FunctionDef, ast.ListComp, ast.GeneratorExp, ast.SetComp, ast.DictComp)) and
+                                     any(y is use for y in ast.walk(x)) for x in ast.walk(nxt))
+                    if inside and not in_closure:
+                        class R(ast.NodeTransformer):
+                            def visit_Name(self, node):
+                                return copy.deepcopy(st.value) if node is use else node
+                        blk[k + 1] = R().visit(nxt)
+                        del blk[k]
+                        done = True
+                        continue
+            k += 1
+    return done
+
+
 TRANSFORMS = {
     "rename-locals": _t_rename,
     "reverse-comparisons": _t_reverse_compare,
@@ -394,6 +537,14 @@ TRANSFORMS = {
     "split-chained-comparison": _t_chain_split,
     "range(0,n)<->range(n)": _t_range0,
     "pad-with-pass/docstring": _t_pad,
+    "extract-condition": _t_extract_condition,
+    "else-after-jump": _t_else_after_jump,
+    "drop-else-after-jump": _t_drop_else_after_jump,
+    "explicit-return-none": _t_explicit_return,
+    "assert-message": _t_assert_message,
+    "split-tuple-assign": _t_split_tuple_assign,
+    "join-assignments": _t_join_assign,
+    "inline-single-use-local": _t_inline_single_use,
 }
 
 
